@@ -602,6 +602,14 @@ class ttensor:
                 f"samples had length {len(samples)} and modes {len(modes)}"
             )
 
+        mode_list = [int(m) for m in np.asarray(modes).reshape(-1)]
+        if any(m < 0 or m >= self.ndims for m in mode_list) or len(
+            set(mode_list)
+        ) != len(mode_list):
+            raise ValueError(
+                f"Modes must be distinct values in [0, {self.ndims}) but got {modes}"
+            )
+
         full_samples = [np.array([], order=self.order)] * self.ndims
         for sample, mode in zip(samples, modes):
             if np.isscalar(sample):
